@@ -3,7 +3,10 @@
    for every denotation of the operations in a monoid in which Z phases add up and commute with each other,
    a phased gate satisfies  g . Phi = Phi . g^phased  (the matrix identity phase_by implements), swap-like gates
    exchange the phases of their two qubits, measurements absorb the phases of their qubits, and an opaque operation
-   commutes with the phases of the qubits it does not touch.  Consequence: the emitted circuit equals the input. *)
+   commutes with the phases of the qubits it does not touch.  A PhasedXZ gate is its x part followed by its z rotation; a
+   qubit's mark points at an emitted PhasedXZ gate with z exponent 0 after which nothing was emitted on that qubit, so (Z
+   rotations commute with operations on other qubits) writing the final phase into that gate equals appending the Z gate.
+   Consequence: the emitted circuit equals the input. *)
 From Coq Require Import List Arith ZArith Bool Lia.
 From VF Require Import Xform.EjectZ.
 Import ListNotations.
@@ -36,6 +39,7 @@ Section Sem.
   Hypothesis meas_law : forall g qs ph, mul (mden g qs) (Phi ph) = mul (Phi (preset ph qs)) (mden g qs).
   Hypothesis opaque_law : forall g qs ph, (forall q, In q qs -> ph q = 0) -> mul (oden g qs) (Phi ph) = mul (Phi ph) (oden g qs).
 
+  (* a PhasedXZ gate is its x part (a phaseable gate on one qubit) followed by its z rotation *)
   Definition iden (o : iop G) : M :=
     match o with
     | IZ q p => zden q p
@@ -43,6 +47,7 @@ Section Sem.
     | ISwap g a b => sden g a b
     | IMeas g qs => mden g qs
     | IOpaque g qs => oden g qs
+    | IPhXZ g q z => mul (zden q z) (gden g [q] [0])
     end.
   Definition oden' (o : oop G) : M :=
     match o with
@@ -51,7 +56,20 @@ Section Sem.
     | OSwap g a b => sden g a b
     | OMeas g qs => mden g qs
     | OOpaque g qs => oden g qs
+    | OPhXZ g q p z => mul (zden q z) (gden g [q] [p])
     end.
+  (* the qubits an emitted operation acts on *)
+  Definition touches (o : oop G) (q : nat) : Prop :=
+    match o with
+    | OZ x _ => x = q
+    | OGate _ qs _ => In q qs
+    | OSwap _ a b => a = q \/ b = q
+    | OMeas _ qs => In q qs
+    | OOpaque _ qs => In q qs
+    | OPhXZ _ x _ _ => x = q
+    end.
+  (* locality: a Z rotation of a qubit commutes with every operation that does not act on that qubit *)
+  Hypothesis local_law : forall o q v, ~ touches o q -> mul (zden q v) (oden' o) = mul (oden' o) (zden q v).
   (* the operator of a list of operations: later operations multiply on the left *)
   Definition icomp (l : list (iop G)) : M := fold_right (fun o acc => mul acc (iden o)) one l.
   Definition ocomp (l : list (oop G)) : M := fold_right (fun o acc => mul acc (oden' o)) one l.
@@ -67,6 +85,7 @@ Section Sem.
     match o with
     | IZ q _ => In q allq
     | IOpaque _ qs => forall q, In q qs -> In q allq
+    | IPhXZ _ q _ => In q allq
     | _ => True
     end.
 
@@ -140,31 +159,185 @@ Section Sem.
       + intros x Hx. apply H3. unfold pset. destruct (Nat.eqb_spec x q); [reflexivity|exact Hx].
   Qed.
 
-  Lemma step_inv ph o : wf o ->
-    mul (Phi (snd (step period ph o))) (ocomp (fst (step period ph o))) = mul (iden o) (Phi ph).
+  (* the Z gates a dump emits act on the dumped qubits only *)
+  Lemma dump_touches : forall qs ph x, ~ In x qs -> Forall (fun o => ~ touches o x) (fst (dump (G:=G) period ph qs)).
   Proof.
-    intros Hwf. destruct o as [q p|g qs|g a b|g qs|g qs]; simpl.
-    - rewrite one_r. apply Phi_pset_add. exact Hwf.
-    - rewrite one_l. symmetry. apply gate_law.
-    - rewrite one_l. symmetry. apply swap_law.
-    - rewrite one_l. symmetry. apply meas_law.
-    - destruct (dump_spec qs ph Hwf) as [H1 [H2 _]].
-      destruct (dump period ph qs) as [zs ph'] eqn:Ed. simpl in *.
-      rewrite ocomp_app. simpl. rewrite one_l.
-      rewrite mul_assoc. rewrite <- (opaque_law g qs ph' H2). rewrite <- mul_assoc. rewrite H1. reflexivity.
+    induction qs as [|q r IH]; intros ph x Hx; simpl; [constructor|].
+    assert (Hr : ~ In x r) by (intros H; apply Hx; right; exact H).
+    assert (Hq : q <> x) by (intros H; apply Hx; left; exact H).
+    pose proof (IH (pset ph q 0) x Hr) as Hd.
+    destruct (dump (G:=G) period (pset ph q 0) r) as [zs ph'] eqn:Ed. simpl in *.
+    destruct (Z.eqb (ph q mod period) 0); [exact Hd|].
+    constructor; [simpl; exact Hq|exact Hd].
   Qed.
 
-  Theorem loop_invariant : forall l ph, Forall wf l ->
-    mul (Phi (snd (loop period ph l))) (ocomp (fst (loop period ph l))) = mul (icomp l) (Phi ph).
+  (* ---- marks ---- *)
+  (* entry k of the output is a PhasedXZ gate on q with z exponent 0 and nothing after it acts on q *)
+  Fixpoint marked (q k : nat) (out : list (oop G)) {struct out} : Prop :=
+    match out with
+    | [] => False
+    | o :: r => match k with
+                | O => (exists g p, o = OPhXZ g q p 0) /\ Forall (fun o => ~ touches o q) r
+                | S k' => marked q k' r
+                end
+    end.
+  Definition marks_ok (mk : marks) (out : list (oop G)) : Prop := forall q k, mk q = Some k -> marked q k out.
+
+  Lemma marked_app q : forall out k new, marked q k out -> Forall (fun o => ~ touches o q) new -> marked q k (out ++ new).
   Proof.
-    induction l as [|o r IH]; intros ph Hwf; simpl.
-    - rewrite one_r, one_l. reflexivity.
+    induction out as [|o r IH]; intros k new Hm Hn; simpl in *; [contradiction|].
+    destruct k as [|k'].
+    - destruct Hm as [He Hf]. split; [exact He|]. apply Forall_app. split; assumption.
+    - apply IH; assumption.
+  Qed.
+
+  Lemma marked_new q g p : forall out, marked q (length out) (out ++ [OPhXZ g q p 0]).
+  Proof.
+    induction out as [|o r IH]; simpl.
+    - split; [exists g, p; reflexivity|constructor].
+    - exact IH.
+  Qed.
+
+  Lemma setz_touches x v : forall out k, Forall (fun o => ~ touches o x) out -> Forall (fun o => ~ touches o x) (setz k v out).
+  Proof.
+    induction out as [|o r IH]; intros k Hf; simpl; [constructor|].
+    inversion Hf as [|? ? Ho Hr]; subst.
+    destruct k as [|k'].
+    - constructor; [|exact Hr]. destruct o; exact Ho.
+    - constructor; [exact Ho|apply IH; exact Hr].
+  Qed.
+
+  Lemma marked_setz q q' v : q <> q' -> forall out k k', marked q' k' out -> marked q k out -> marked q' k' (setz k v out).
+  Proof.
+    intros Hne. induction out as [|o r IH]; intros k k' Hm' Hm; simpl in *; [contradiction|].
+    destruct k as [|j]; destruct k' as [|j']; simpl.
+    - destruct Hm as [[g [p E]] _]. destruct Hm' as [[g' [p' E']] _]. rewrite E in E'. inversion E'. congruence.
+    - exact Hm'.
+    - destruct Hm' as [He Hf]. split; [exact He|]. apply setz_touches. exact Hf.
+    - apply IH; assumption.
+  Qed.
+
+  Lemma ocomp_local q v : forall r, Forall (fun o => ~ touches o q) r -> mul (zden q v) (ocomp r) = mul (ocomp r) (zden q v).
+  Proof.
+    induction r as [|o r IH]; intros Hf; simpl; [rewrite one_l, one_r; reflexivity|].
+    inversion Hf as [|? ? Ho Hr]; subst.
+    rewrite mul_assoc. rewrite (IH Hr). rewrite <- mul_assoc. rewrite (local_law o q v Ho). rewrite mul_assoc. reflexivity.
+  Qed.
+
+  (* writing v into the marked gate = a Z rotation by v after everything emitted so far *)
+  Lemma setz_sem q v : forall out k, marked q k out -> ocomp (setz k v out) = mul (zden q v) (ocomp out).
+  Proof.
+    induction out as [|o r IH]; intros k Hm; simpl in *; [contradiction|].
+    destruct k as [|j]; simpl.
+    - destruct Hm as [[g [p E]] Hf]. subst o. simpl.
+      rewrite z_zero, one_l.
+      rewrite (mul_assoc (ocomp r)). rewrite <- (ocomp_local q v r Hf). rewrite <- mul_assoc. reflexivity.
+    - rewrite (IH j Hm). rewrite mul_assoc. reflexivity.
+  Qed.
+
+  Lemma mset_other (mk : marks) q v x : x <> q -> mset mk q v x = mk x.
+  Proof. intros H. unfold mset. destruct (Nat.eqb_spec x q); [contradiction|reflexivity]. Qed.
+  Lemma mset_same (mk : marks) q v : mset mk q v q = v.
+  Proof. unfold mset. rewrite Nat.eqb_refl. reflexivity. Qed.
+
+  Lemma mclear_spec : forall qs (mk : marks) x, (In x qs -> mclear mk qs x = None) /\ (~ In x qs -> mclear mk qs x = mk x).
+  Proof.
+    induction qs as [|q r IH]; intros mk x; simpl; [split; [intros []|reflexivity]|].
+    destruct (IH (mset mk q None) x) as [H1 H2]. split.
+    - intros [->|Hx].
+      + destruct (in_dec Nat.eq_dec x r) as [Hi|Hi]; [apply H1; exact Hi|].
+        rewrite (H2 Hi). apply mset_same.
+      + apply H1. exact Hx.
+    - intros Hn. rewrite H2 by (intros H; apply Hn; right; exact H).
+      apply mset_other. intros E. apply Hn. left. symmetry. exact E.
+  Qed.
+
+  (* after an operation on qs emitted `new` (acting on qs only): the marks of qs are gone, the others still hold *)
+  Lemma marks_ok_clear mk out qs new : marks_ok mk out ->
+    (forall x, ~ In x qs -> Forall (fun o => ~ touches o x) new) -> marks_ok (mclear mk qs) (out ++ new).
+  Proof.
+    intros Hok Hnew q k Hq.
+    destruct (in_dec Nat.eq_dec q qs) as [Hi|Hi].
+    - rewrite (proj1 (mclear_spec qs mk q) Hi) in Hq. discriminate.
+    - rewrite (proj2 (mclear_spec qs mk q) Hi) in Hq. apply marked_app; [apply Hok; exact Hq|apply Hnew; exact Hi].
+  Qed.
+
+  Definition st_ph (st : state G) : phases := fst (fst st).
+  Definition st_mk (st : state G) : marks := snd (fst st).
+  Definition st_out (st : state G) : list (oop G) := snd st.
+
+  Lemma step_inv st o : wf o -> marks_ok (st_mk st) (st_out st) ->
+    mul (Phi (st_ph (step period st o))) (ocomp (st_out (step period st o))) = mul (iden o) (mul (Phi (st_ph st)) (ocomp (st_out st)))
+    /\ marks_ok (st_mk (step period st o)) (st_out (step period st o)).
+  Proof.
+    destruct st as [[ph mk] out]. unfold st_ph, st_mk, st_out. simpl fst; simpl snd.
+    intros Hwf Hok. destruct o as [q p|g qs|g a b|g qs|g qs|g q z]; simpl.
+    - split.
+      + rewrite (Phi_pset_add ph q p Hwf). rewrite mul_assoc. reflexivity.
+      + intros x k Hx. destruct (Nat.eq_dec x q) as [->|Hne]; [rewrite mset_same in Hx; discriminate|].
+        rewrite mset_other in Hx by exact Hne. apply Hok. exact Hx.
+    - split.
+      + rewrite ocomp_app. simpl. rewrite one_l. rewrite !mul_assoc. rewrite gate_law. reflexivity.
+      + apply marks_ok_clear; [exact Hok|]. intros x Hx. constructor; [simpl; exact Hx|constructor].
+    - split.
+      + rewrite ocomp_app. simpl. rewrite one_l. rewrite !mul_assoc. rewrite swap_law. reflexivity.
+      + apply (marks_ok_clear mk out [a; b]); [exact Hok|]. intros x Hx. constructor; [|constructor].
+        simpl. intros [E|E]; apply Hx; simpl; [left|right; left]; exact E.
+    - split.
+      + rewrite ocomp_app. simpl. rewrite one_l. rewrite !mul_assoc. rewrite meas_law. reflexivity.
+      + apply marks_ok_clear; [exact Hok|]. intros x Hx. constructor; [simpl; exact Hx|constructor].
+    - destruct (dump_spec qs ph Hwf) as [H1 [H2 _]].
+      pose proof (dump_touches qs ph) as Ht.
+      destruct (dump period ph qs) as [zs ph'] eqn:Ed. simpl in *. split.
+      + rewrite !ocomp_app. simpl. rewrite one_l. rewrite <- H1.
+        rewrite !mul_assoc. rewrite (opaque_law g qs ph' H2). reflexivity.
+      + apply marks_ok_clear; [exact Hok|]. intros x Hx. apply Forall_app. split; [apply Ht; exact Hx|].
+        constructor; [simpl; exact Hx|constructor].
+    - split.
+      + rewrite ocomp_app. simpl. rewrite one_l. rewrite z_zero, one_l.
+        rewrite (Phi_pset_add ph q z Hwf). rewrite !mul_assoc.
+        rewrite <- (mul_assoc (zden q z) (Phi ph)).
+        assert (Hg : mul (Phi ph) (gden g [q] [ph q]) = mul (gden g [q] [0]) (Phi ph)) by (symmetry; apply (gate_law g [q] ph)).
+        rewrite Hg. rewrite !mul_assoc. reflexivity.
+      + intros x k Hx. destruct (Nat.eq_dec x q) as [->|Hne].
+        * rewrite mset_same in Hx. inversion Hx; subst. apply marked_new.
+        * rewrite mset_other in Hx by exact Hne. apply marked_app; [apply Hok; exact Hx|].
+          constructor; [simpl; intros E; apply Hne; symmetry; exact E|constructor].
+  Qed.
+
+  Theorem loop_invariant : forall l st, Forall wf l -> marks_ok (st_mk st) (st_out st) ->
+    mul (Phi (st_ph (loop period st l))) (ocomp (st_out (loop period st l))) = mul (icomp l) (mul (Phi (st_ph st)) (ocomp (st_out st)))
+    /\ marks_ok (st_mk (loop period st l)) (st_out (loop period st l)).
+  Proof.
+    induction l as [|o r IH]; intros st Hwf Hok; simpl.
+    - rewrite one_l. split; [reflexivity|exact Hok].
     - inversion Hwf as [|? ? Ho Hr]; subst.
-      pose proof (step_inv ph o Ho) as Hs.
-      destruct (step period ph o) as [out1 ph1] eqn:Es. simpl in Hs.
-      pose proof (IH ph1 Hr) as Hl.
-      destruct (loop period ph1 r) as [out2 ph2] eqn:El. simpl in *.
-      rewrite ocomp_app. rewrite mul_assoc. rewrite Hl. rewrite <- mul_assoc. rewrite Hs. rewrite mul_assoc. reflexivity.
+      destruct (step_inv st o Ho Hok) as [Hs Hok'].
+      destruct (IH (step period st o) Hr Hok') as [Hl Hok''].
+      split; [|exact Hok''].
+      unfold loop in *. rewrite Hl. rewrite Hs. rewrite !mul_assoc. reflexivity.
+  Qed.
+
+  (* the final dump: each qubit's tracked phase ends up as a Z rotation after everything emitted, either as a Z gate or inside
+     the PhasedXZ gate its mark points at *)
+  Lemma finish_spec ph mk : forall r out, NoDup r -> (forall q k, In q r -> mk q = Some k -> marked q k out) ->
+    ocomp (finish period ph mk out r) = mul (PhiL r ph) (ocomp out).
+  Proof.
+    induction r as [|q r IH]; intros out Hnd Hok; simpl; [rewrite one_l; reflexivity|].
+    inversion Hnd as [|? ? Hq Hnd']; subst.
+    destruct (mk q) as [k|] eqn:Ek.
+    - assert (Hm : marked q k out) by (apply Hok; [left; reflexivity|exact Ek]).
+      rewrite IH; [|exact Hnd'|].
+      + rewrite (setz_sem q (ph q) out k Hm). rewrite mul_assoc. rewrite <- z_comm_PhiL. reflexivity.
+      + intros x kx Hx Ex. apply (marked_setz q x); [intros E; subst; contradiction| |exact Hm].
+        apply Hok; [right; exact Hx|exact Ex].
+    - destruct (Z.eqb_spec (ph q mod period) 0) as [E0|E0].
+      + rewrite IH; [|exact Hnd'|intros x kx Hx Ex; apply Hok; [right; exact Hx|exact Ex]].
+        rewrite (z_period q (ph q) E0), one_l. reflexivity.
+      + rewrite IH; [|exact Hnd'|].
+        * rewrite ocomp_app. simpl. rewrite one_l. rewrite mul_assoc. rewrite <- z_comm_PhiL. reflexivity.
+        * intros x kx Hx Ex. apply marked_app; [apply Hok; [right; exact Hx|exact Ex]|].
+          constructor; [simpl; intros E; subst; contradiction|constructor].
   Qed.
 
   Lemma PhiL_zero l ph : (forall q, In q l -> ph q = 0) -> PhiL l ph = one.
@@ -179,13 +352,12 @@ Section Sem.
   Theorem eject_z_correct : forall l, Forall wf l -> ocomp (eject_z period allq l) = icomp l.
   Proof.
     intros l Hwf. unfold eject_z.
-    pose proof (loop_invariant l (fun _ => 0) Hwf) as Hl.
-    destruct (loop period (fun _ => 0) l) as [out ph] eqn:El. simpl in Hl.
-    destruct (dump_spec allq ph (fun q H => H)) as [H1 [H2 _]].
-    destruct (dump period ph allq) as [zs ph'] eqn:Ed. simpl in *.
-    rewrite ocomp_app.
-    rewrite (Phi_zero ph' H2), one_l in H1. rewrite H1. rewrite Hl.
-    rewrite (Phi_zero (fun _ => 0)) by reflexivity. apply one_r.
+    assert (Hok0 : marks_ok (st_mk (init (G:=G))) (st_out init)) by (intros q k H; discriminate).
+    destruct (loop_invariant l init Hwf Hok0) as [Hl Hok].
+    destruct (loop period init l) as [[ph mk] out] eqn:El. unfold st_ph, st_mk, st_out in *. simpl in *.
+    rewrite finish_spec; [|exact allq_nodup|intros q k _ Hq; apply Hok; exact Hq].
+    fold (Phi ph). rewrite Hl.
+    rewrite (Phi_zero (fun _ => 0)) by reflexivity. rewrite one_l. apply one_r.
   Qed.
 End Sem.
 
@@ -205,3 +377,35 @@ Example eject_z_run :
   eject_z 16 [0%nat; 1%nat] [IZ 0 3; IGate 7%nat [0%nat; 1%nat]; ISwap 8%nat 0 1; IOpaque 9%nat [1%nat]; IZ 0 2]
   = [OGate 7%nat [0%nat; 1%nat] [3; 0]; OSwap 8%nat 0 1; OZ 1 3; OOpaque 9%nat [1%nat]; OZ 0 2].
 Proof. reflexivity. Qed.
+
+(* PhasedXZ gates: the first one (qubit 0) is followed by a Z gate, which forgets the mark: the phase 5 + 2 leaves as a Z gate;
+   the second one (qubit 1) is the last operation on its qubit: its own z part 4 plus the earlier phase 1 is written back into it;
+   a swap-like gate after a PhasedXZ gate forgets both marks, the exchanged phases leave as Z gates *)
+Example eject_z_run_phxz :
+  eject_z 16 [0%nat; 1%nat] [IZ 1 1; IPhXZ 7%nat 0 5; IZ 0 2; IPhXZ 8%nat 1 4]
+  = [OPhXZ 7%nat 0%nat 0 0; OPhXZ 8%nat 1%nat 1 5; OZ 0 7].
+Proof. reflexivity. Qed.
+Example eject_z_run_phxz_swap :
+  eject_z 16 [0%nat; 1%nat] [IPhXZ 7%nat 0 5; ISwap 8%nat 0 1; IZ 0 2]
+  = [OPhXZ 7%nat 0%nat 0 0; OSwap 8%nat 0 1; OZ 0 2; OZ 1 5].
+Proof. reflexivity. Qed.
+
+(* Why every operation must forget the marks of its qubits: writing a phase into a PhasedXZ gate that is followed by another
+   operation on the same qubit is NOT a Z rotation after everything emitted.  Witness over 2x2 integer matrices: the Z rotation
+   of qubit 0 by v is the shear [[1 v] [0 1]] (additive in v), the x part of the gate is the identity, the opaque operation
+   is diag(1, -1), which does not commute with the shear. *)
+Definition ezm : Type := (Z * Z * Z * Z)%type.
+Definition ezm_mul (x y : ezm) : ezm :=
+  let '(a, b, c, d) := x in let '(e, f, g, h) := y in (a * e + b * g, a * f + b * h, c * e + d * g, c * f + d * h).
+Definition ezm_one : ezm := (1, 0, 0, 1).
+Definition demo_zden (q : nat) (v : Z) : ezm := if Nat.eqb q 0 then (1, v, 0, 1) else ezm_one.
+Definition demo_ocomp : list (oop nat) -> ezm :=
+  ocomp nat ezm ezm_mul ezm_one demo_zden (fun _ _ _ => ezm_one) (fun _ _ _ => ezm_one) (fun _ _ => ezm_one) (fun _ _ => (1, 0, 0, -1)).
+
+Theorem setz_behind_operation_refuted : exists (out : list (oop nat)) (k q : nat) (v : Z),
+  nth_error out k = Some (OPhXZ 7%nat q 0 0) /\
+  demo_ocomp (setz k v out) <> ezm_mul (demo_zden q v) (demo_ocomp out).
+Proof.
+  exists [OPhXZ 7%nat 0%nat 0 0; OOpaque 9%nat [0%nat]], 0%nat, 0%nat, 1.
+  split; [reflexivity|]. vm_compute. intro H. discriminate H.
+Qed.
